@@ -15,7 +15,7 @@ The two changes for one property should attack different mechanisms/clauses of t
 
 For each change also write a demonstration: one Go test file which FAILS with the change applied and PASSES on the unchanged tree (deterministic if at all possible; for interleaving-dependent breaks loop up to a bound and state the observed hit rate). The demo is a single file that I will copy into one package directory of the library (it may be an in-package or external _test file) and run with `go test -run <regexp>`.
 
-Procedure per change: start from the clean worktree; edit; build; run tests (b); add the demo file, run it (must FAIL); `git stash` or revert only the library change and run the demo again (must PASS); then write the outputs and reset the worktree (`git checkout -- . && git clean -fdq`) so that every patch is against the clean tree.
+Procedure per change: start from the clean worktree; edit; build; run tests (b); add the demo file, run it (must FAIL); revert only the library change (save it first: `git diff -- . ':(exclude)*_test.go' > /tmp/mw-{n}-out/cur.diff; git apply -R /tmp/mw-{n}-out/cur.diff`; NEVER use `git stash`: the stash is shared between worktrees and other workers would pop it) and run the demo again (must PASS); then write the outputs and reset the worktree (`git checkout -- . && git clean -fdq`) so that every patch is against the clean tree.
 
 Outputs per change, in /tmp/mw-{n}-out/<PROPERTY>-<a|b>/ :
   patch.diff   `git diff` of the library change only (no test files), applicable with `git apply` to the clean tree
